@@ -2,7 +2,10 @@
 
 package gtree
 
-import "path/filepath"
+import (
+	"os"
+	"path/filepath"
+)
 
 // native side: a real jail; verifFSCalls returns every entry of the jail that differs from the sealed pre-state,
 // as an absolute path (so an entry created outside the target fails the lexical confinement check as well).
@@ -11,6 +14,19 @@ func c07Target() string {
 	return vfsTarget()
 }
 func c07Seal() { vfsSeal() }
+
+// verifFSKinds: for every entry verifFSCalls returns, "mkdir" if it is a directory now, "create" if a regular file.
+func verifFSKinds() []string {
+	var out []string
+	for _, k := range vfsDiff() {
+		if info, err := os.Lstat(filepath.Join(vfsJail, k)); err == nil && !info.IsDir() {
+			out = append(out, "create")
+		} else {
+			out = append(out, "mkdir")
+		}
+	}
+	return out
+}
 
 func verifFSCalls() []string {
 	var out []string
